@@ -14,7 +14,7 @@ pub fn prop() -> Prop {
     Prop {
         id: "C07",
         level: "exploration",
-        rule: "(1) every expression tree of depth <= D over the 13 infix operators and `=` with leaves {a, 1} printed with minimal parentheses from the documented precedence table; (2) calls, indexing and prefix operators in every operand position of every operator; (3) every statement tree of the ctrl/fun/mix/heap slices up to N nodes, plain and with `anders als` / `op=` sugar; (4) every `a op= e` for e of depth <= 2 and every else-if chain up to length 3; (5) layout: for a base set of programs every rendering that changes <= d gaps to each alternative separator (each of the 11 white-space code points, a line comment, nothing where maximal munch allows, optional `;` and `,` dropped) and every single redundant parenthesisation. Oracle: the tree returned by the real parser equals the generated tree. Non-trivial = the rendering differs from the default rendering of a smaller case or contains at least two operators/constructs; distinct = distinct texts",
+        rule: "(1) every expression tree of depth <= D over the 13 infix operators and `=` with leaves {a, 1} printed with minimal parentheses from the documented precedence table; (2) calls, indexing and prefix operators in every operand position of every operator; (2b) `als`, `zolang` and `functie` expressions without parentheses as the left and right operand of every operator and (function literals) as the target of a call, in 16 statement and expression contexts (an expression does not end at its closing brace); (3) every statement tree of the ctrl/fun/mix/heap slices up to N nodes, plain and with `anders als` / `op=` sugar; (4) every `a op= e` for e of depth <= 2 and every else-if chain up to length 3; (5) layout: for a base set of programs every rendering that changes <= d gaps to each alternative separator (each of the 11 white-space code points, a line comment, nothing where maximal munch allows, optional `;` and `,` dropped) and every single redundant parenthesisation. Oracle: the tree returned by the real parser equals the generated tree. Non-trivial = the rendering differs from the default rendering of a smaller case or contains at least two operators/constructs; distinct = distinct texts",
         assumptions: &[
             "the printer's precedence table (printer::prec) is the documented one: * / % > + - > < <= > >= > == != > && || > =",
             "prefix operands are always parenthesised unless atomic (U13)",
@@ -414,6 +414,10 @@ fn run(sh: &mut Shard) {
             }
         }
     }
+    // (2b) block-ended expressions (als, zolang, functie) WITHOUT parentheses as the left operand of every
+    // operator and as the target of a call / an index, in every statement and expression context: an
+    // expression does not end at its closing brace
+    compound_operand_family(sh);
     // (4) op-assign sugar and else-if chains
     let mut sugar_ops = ARITH_OPS.to_vec();
     sugar_ops.extend(CMP_OPS.iter().cloned());
@@ -499,6 +503,71 @@ fn run(sh: &mut Shard) {
     }
 }
 
+fn compound_operand_family(sh: &mut Shard) {
+    let compounds: Vec<(&str, Expr)> = vec![
+        ("als a { 1 } anders { 2 }", iff(id("a"), vec![es(int(1))], Some(vec![es(int(2))]))),
+        ("als a { 1 }", iff(id("a"), vec![es(int(1))], None)),
+        // (an `anders als` chain is left out: what follows it belongs to the innermost `als`, as `anders als e` reads `anders { als e }`)
+        ("zolang a { 1 }", whil(id("a"), vec![es(int(1))])),
+        ("functie ( x ) { x }", func("", &["x"], vec![es(id("x"))])),
+        ("functie f ( x ) { x }", func("f", &["x"], vec![es(id("x"))])),
+    ];
+    let mut all_ops = ARITH_OPS.to_vec();
+    all_ops.extend(CMP_OPS.iter().cloned());
+    all_ops.extend(LOGIC_OPS.iter().cloned());
+    // (text of the expression, its tree)
+    let mut exprs: Vec<(String, Expr)> = Vec::new();
+    for (ct, c) in &compounds {
+        for op in &all_ops {
+            // (the parser refuses a function literal as an operand)
+            if matches!(c, Expr::Function { .. }) {
+                break;
+            }
+            exprs.push((format!("{ct} {} 3", opname(op)), infix(c.clone(), op.clone(), int(3))));
+            for op2 in [Operator::Multiply, Operator::Add, Operator::Eq] {
+                let tree = if printer::prec(&op2) > printer::prec(op) {
+                    infix(c.clone(), op.clone(), infix(int(3), op2.clone(), id("b")))
+                } else {
+                    infix(infix(c.clone(), op.clone(), int(3)), op2.clone(), id("b"))
+                };
+                exprs.push((format!("{ct} {} 3 {} b", opname(op), opname(&op2)), tree));
+            }
+            // the block-ended expression as the right operand, followed by a tighter / looser operator
+            exprs.push((format!("b {} {ct}", opname(op)), infix(id("b"), op.clone(), c.clone())));
+        }
+        // (only names and function literals are callable; only names, array and string literals can be indexed)
+        if matches!(c, Expr::Function { .. }) {
+            exprs.push((format!("{ct} ( 1 )"), call(c.clone(), vec![int(1)])));
+            exprs.push((format!("{ct} ( 1 ) + 3"), infix(call(c.clone(), vec![int(1)]), Operator::Add, int(3))));
+            exprs.push((format!("b * {ct} ( 1 )"), infix(id("b"), Operator::Multiply, call(c.clone(), vec![int(1)]))));
+            exprs.push((format!("{ct} ( 1 ) == {ct} ( 2 )"), infix(call(c.clone(), vec![int(1)]), Operator::Eq, call(c.clone(), vec![int(2)]))));
+        }
+    }
+    for (t, e) in &exprs {
+        let contexts: Vec<(String, Vec<Stmt>)> = vec![
+            (t.clone(), vec![es(e.clone())]),
+            (format!("1 ; {t}"), vec![es(int(1)), es(e.clone())]),
+            (format!("{t} ; 1"), vec![es(e.clone()), es(int(1))]),
+            (format!("{{ {t} }}"), vec![Stmt::Block(vec![es(e.clone())])]),
+            (format!("{{ 1 ; {t} }}"), vec![Stmt::Block(vec![es(int(1)), es(e.clone())])]),
+            (format!("functie g ( ) {{ {t} }}"), vec![es(func("g", &[], vec![es(e.clone())]))]),
+            (format!("als b {{ {t} }}"), vec![es(iff(id("b"), vec![es(e.clone())], None))]),
+            (format!("zolang b {{ {t} }}"), vec![es(whil(id("b"), vec![es(e.clone())]))]),
+            (format!("stel v = {t}"), vec![let_("v", e.clone())]),
+            (format!("v = {t}"), vec![es(assign(id("v"), e.clone()))]),
+            (format!("antwoord {t}"), vec![Stmt::Return(e.clone())]),
+            (format!("g ( {t} )"), vec![es(calln("g", vec![e.clone()]))]),
+            (format!("g ( 1 , {t} )"), vec![es(calln("g", vec![int(1), e.clone()]))]),
+            (format!("[ {t} ]"), vec![es(array(vec![e.clone()]))]),
+            (format!("( {t} )"), vec![es(e.clone())]),
+            (format!("v [ {t} ]"), vec![es(index(id("v"), e.clone()))]),
+        ];
+        for (text, tree) in contexts {
+            case(sh, "compound-operand", &text, &tree, true);
+        }
+    }
+}
+
 /// The tree with every leaf operand replaced by a placeholder (only the nesting of operators remains).
 fn shape_of(ast: &[Stmt]) -> String {
     fn e(x: &Expr) -> String {
@@ -567,7 +636,7 @@ fn vacuity(m: &Merged) -> Option<String> {
             }
         }
     }
-    for fam in ["trees", "postfix", "op-assign", "else-if", "layout-1", "parens-1", "slice-ctrl", "slice-fun"] {
+    for fam in ["trees", "postfix", "compound-operand", "op-assign", "else-if", "layout-1", "parens-1", "slice-ctrl", "slice-fun"] {
         if m.counters.get(&format!("family:{fam}")).copied().unwrap_or(0) == 0 {
             return Some(format!("family {fam} produced no case"));
         }
